@@ -137,7 +137,15 @@ def check(ctx):
         ctx.check("self.cls" in t and "fields" in t and "__dict__" not in t, "C15.R4", c.qualname, c.node.body[0], f"{cname} must call the class (so that the wrapped __init__ records the keyword arguments)", c, c.node, detail="cls(**fields)")
 
 
+    # ---------------- flag metadata: producers and consumers agree
+    ctx.rule("C15.R5", "flag metadata (default_as_set, flatten, required, ...): a consumer testing the truth of the stored value agrees with the placeholder stored by simple_metadata", floor=1)
+    from .common_flags import flag_metadata_rule
+    flag_metadata_rule(ctx, "C15.R5")
+
 def mutants(mb):
+    mb.add_text("flag-placeholder-none", "apischema/metadata/implem.py", "    return MetadataImplem({key: ...})\n", "    return MetadataImplem({key: None})\n", "C15.R5", "DEFAULT_AS_SET_METADATA")
+    mb.add_text("neg-flag-placeholder-true", "apischema/metadata/implem.py", "    return MetadataImplem({key: ...})\n", "    return MetadataImplem({key: True})\n", negative=True)
+    mb.add_text("neg-flag-tested-by-presence", "apischema/fields.py", "            if field.metadata.get(DEFAULT_AS_SET_METADATA):\n", "            if DEFAULT_AS_SET_METADATA in field.metadata:\n", negative=True)
     Fp = "apischema/fields.py"
     S = "apischema/serialization/__init__.py"
     SM = "apischema/serialization/methods.py"
